@@ -21,6 +21,7 @@ func init() {
 			{"TAB-EXHAUST", 60, ruleTabExhaust},
 			{"TAB-BASICNAMES", 30, ruleTabBasicNames},
 			{"TAB-SHIM", 40, ruleTabShim},
+			{"LAY-ONCE", 30, ruleLayOnce},
 		},
 	})
 }
